@@ -736,3 +736,36 @@ Example C18_nonvacuous_mode_sum_inner :
   mode_sum_ww ms = Some (mkMode (Some (mkTs 5 2))
     [mkSeg 4 (Some 5); mkSeg 9 (Some 4); mkSeg 7 (Some 1); mkSeg 5 (Some 9223372036854774990); mkSeg 1 None]).
 Proof. exact mode_sum_ww_nonvacuous. Qed.
+
+(* ---- segmentpb.Cut on the heap, and the six operations together ---- *)
+Theorem C18_seg_cut_own_refines : forall d p h, (p < List.length (cells h))%nat ->
+  heap_ext h (snd (cut_own d p h)) /\
+  (option_map (cell (snd (cut_own d p h))) (fst (fst (fst (cut_own d p h)))),
+   option_map (cell (snd (cut_own d p h))) (snd (fst (fst (cut_own d p h)))),
+   snd (fst (cut_own d p h))) = cut_seg d (cell h p).
+Proof. exact cut_own_refines. Qed.
+Print Assumptions C18_seg_cut_own_refines.
+
+(* every list- or mode-returning operation of the heap model, read out of its exit heap, is the operation of the value
+   model on the arguments read out of the entry heap (for every heap with readable arguments, every capacity /
+   aliasing, every growth policy) *)
+Theorem C18_heap_model_refines_value_model :
+  (forall d s h, slice_ok h s -> read_slice (snd (shift_own d s h)) (fst (shift_own d s h)) = shift d (read_slice h s)) /\
+  (forall d p h, (p < List.length (cells h))%nat ->
+     (option_map (cell (snd (cut_own d p h))) (fst (fst (fst (cut_own d p h)))),
+      option_map (cell (snd (cut_own d p h))) (snd (fst (fst (cut_own d p h)))),
+      snd (fst (cut_own d p h))) = cut_seg d (cell h p)) /\
+  (forall g ss h, read_slice (snd (sum_own g ss h)) (fst (sum_own g ss h)) = sum (map (read_slice h) ss)) /\
+  (forall g t m h b a o h', (m < List.length (mcells h))%nat -> slice_ok h (snd (mcell h m)) ->
+     mode_cut_own g t m h = (b, a, o, h') ->
+     (option_map (read_mode h') b, option_map (read_mode h') a, o) = mode_cut t (read_mode h m)) /\
+  (forall g d m h, (m < List.length (mcells h))%nat -> slice_ok h (snd (mcell h m)) ->
+     read_mode (snd (mode_shift_own g d m h)) (fst (mode_shift_own g d m h)) = mode_shift d (read_mode h m)) /\
+  (forall g ms h, Forall (fun m => slice_ok h (snd (mcell h m))) ms ->
+     option_map (read_mode (snd (mode_sum_own g ms h))) (fst (mode_sum_own g ms h)) = mode_sum (map (read_mode h) ms)).
+Proof.
+  split; [exact shift_own_refines|]. split; [intros d p h Hp; exact (proj2 (cut_own_refines d p h Hp))|].
+  split; [exact sum_own_refines|]. split; [exact mode_cut_own_refines|]. split; [exact mode_shift_own_refines|].
+  exact mode_sum_own_refines.
+Qed.
+Print Assumptions C18_heap_model_refines_value_model.
